@@ -61,11 +61,30 @@ type FuncContract struct {
 	NoTerm   bool // termination not claimed
 	Asserts  []*Clause
 	CallSites map[string][]*Clause // callee short name -> assertions evaluated at every call to it
+	Ghosts    []*GhostVar
+	GhostUps  []*GhostUpdate
 	IsLemma  bool     // a lemma over spec expressions: parameters are universally quantified, no code
 	PTypes   []string // lemma parameter types (Go syntax)
 	File     string
 	Line     int
 	Used     bool
+}
+
+// GhostVar: "ghost name type = init"
+type GhostVar struct {
+	Name string
+	Type string
+	Init Expr
+}
+
+// GhostUpdate: "onassign <local> [in loop N]: name = expr" — executed right after every
+// assignment to the named local variable (inside loop N when given).
+type GhostUpdate struct {
+	Local string
+	Loop  int
+	Name  string
+	E     Expr
+	Text  string
 }
 
 type SpecFunc struct {
@@ -101,7 +120,7 @@ var tagRe = regexp.MustCompile(`^\[([A-Za-z0-9_, ]+)(?::([A-Za-z0-9_\-\.]+))?\]\
 var keywords = map[string]bool{
 	"func": true, "props": true, "requires": true, "ensures": true, "modifies": true,
 	"loop": true, "invariant": true, "decreases": true, "inline": true, "trusted": true,
-	"pure": true, "unroll": true, "spec": true, "package": true, "noterm": true, "assert": true, "axiom": true, "lemma": true, "callsite": true,
+	"pure": true, "unroll": true, "spec": true, "package": true, "noterm": true, "assert": true, "axiom": true, "lemma": true, "callsite": true, "ghost": true, "onassign": true,
 }
 
 // LoadFile parses a contract file. pkgPath is the default package path
@@ -255,6 +274,46 @@ func (cs *Contracts) LoadFile(path string, pkgPath string, external bool) error 
 					}
 					curLoop.Invariants = append(curLoop.Invariants, c)
 				}
+			case "ghost":
+				// ghost name type = init
+				fs := strings.SplitN(rest, "=", 2)
+				hd := strings.Fields(fs[0])
+				if len(fs) != 2 || len(hd) != 2 {
+					return errf("ghost needs 'name type = init'")
+				}
+				e, err := ParseExpr(strings.TrimSpace(fs[1]))
+				if err != nil {
+					return errf("%v", err)
+				}
+				cur.Ghosts = append(cur.Ghosts, &GhostVar{Name: hd[0], Type: hd[1], Init: e})
+			case "onassign":
+				// onassign local [in loop N]: name = expr
+				i := strings.Index(rest, ":")
+				if i < 0 {
+					return errf("onassign needs '<local> [in loop N]: name = expr'")
+				}
+				hd := strings.Fields(rest[:i])
+				gu := &GhostUpdate{Local: hd[0], Text: rest}
+				if len(hd) == 4 && hd[1] == "in" && hd[2] == "loop" {
+					n, err := strconv.Atoi(hd[3])
+					if err != nil {
+						return errf("bad loop ordinal")
+					}
+					gu.Loop = n
+				} else if len(hd) != 1 {
+					return errf("bad onassign header")
+				}
+				as := strings.SplitN(rest[i+1:], "=", 2)
+				if len(as) != 2 {
+					return errf("onassign needs an assignment")
+				}
+				gu.Name = strings.TrimSpace(as[0])
+				e, err := ParseExpr(strings.TrimSpace(as[1]))
+				if err != nil {
+					return errf("%v", err)
+				}
+				gu.E = e
+				cur.GhostUps = append(cur.GhostUps, gu)
 			case "callsite":
 				// callsite <callee>: <expr>   (arguments of the call are arg0, arg1, ...)
 				i := strings.Index(rest, ":")
